@@ -17,8 +17,9 @@ INFO = {
 }
 
 
-def run(ctx):
-    rule = "R-C13.G.merge_vector"
+def merge_vector_rules(ctx, rule="R-C13.G.merge_vector"):
+    """merge_vector refuses a length mismatch before it writes and adds the whole other vector (shared with C04: the sketch
+    combiner merges the two verifier shares with it, so a silently truncated share would be accepted)"""
     try:
         f = ctx.fn(rule, name="merge_vector", id_re=r"^field::merge_vector$")
         g = ctx.guards(f)
@@ -49,6 +50,9 @@ def run(ctx):
         pass
     ctx.floor(rule, 3)
 
+
+def run(ctx):
+    merge_vector_rules(ctx)
     rule = "R-C13.P.elementwise"
     for nm in ("add_assign_vector",):
         try:
